@@ -18,3 +18,11 @@ reg("C08", "model_checking",
     "ReplaceAll*/Split against regexp.replaceAll/Split of the reference on every generated (pattern, haystack, template, n); Expand/ExpandString "
     "against the TLA+ transcription of regexp.expand on every template of bounded length x 4 capture environments",
     _NOTE, "TLC-generated vectors from RegexAPI!RepPieces/Render/Expand/Split replayed into the implementation", "DESIGN.md §6 C08")
+
+reg("C14", "model_checking",
+    "Each exposed engine (PikeVM through 12 entry points, bounded backtracker with CanHandle, lazy DFA forward/anchored/earliest/reverse under 6 cache "
+    "configurations including caches too small for the automaton, one-pass DFA) driven directly on every TLC-generated (pattern, haystack, start offset) "
+    "and compared with the quantity the specification defines for it (existence, end, anchored end, earliest end, least start for an end, span, slots); "
+    "declining is accepted, a wrong answer is not",
+    _NOTE + " Engine objects (and DFA caches) are reused across all haystacks of a pattern, as the library reuses them.",
+    "TLC-generated per-offset vectors (Find from every offset, anchored match, set of all match ends) replayed into each engine", "DESIGN.md §6 C14")
